@@ -25,7 +25,7 @@ PROPS = {
     "C04": {"lean": "ICG.Props.C04", "streams": [("corr_bounds", "C04"), ("corr_hist", "C04")], "rule": _BOUNDS_RULE, "quick_s": 90, "thorough_s": 900},
     "C07": {"lean": ["ICG.Props.C07", "ICG.Props.C07Gaps", "ICG.Props.C07L2"], "streams": [("corr_bounds", "C07"), ("corr_shapley", "C07"), ("corr_env", "C07env")], "rule": _BOUNDS_RULE, "quick_s": 60, "thorough_s": 600},
     "C08": {"lean": ["ICG.Props.C08", "ICG.Lemmas.EnvUndo"], "streams": [("corr_bounds", "C08"), ("corr_hist", "C08"), ("corr_env", "C08env")], "rule": _BOUNDS_RULE, "quick_s": 60, "thorough_s": 600},
-    "C17": {"lean": "ICG.Props.C17", "streams": [("corr_table", "C17")],
+    "C17": {"lean": ["ICG.Props.C17", "ICG.Props.C17Alg"], "streams": [("corr_table", "C17")],
             "rule": ("random histories of 40 public value operations (set / unset / reveal / un-reveal / bulk set / bulk reset / bulk and scalar bound "
                      "writes / copy / negate / getters, ~10% malformed) on n = 1..5 over several live objects; non-trivial = history with ≥ 6 distinct "
                      "(operation, outcome) kinds; distinct by history"),
